@@ -175,6 +175,13 @@ def rule_breaking(rng):
     bad[j] = rng.choice([-1, -good[j], 0, -7])
     wrap = rng.choice([tuple, list, lambda v: np.asarray(v)])
     full = np.zeros(tuple(g * o for g, o in zip(good, other)))
+    # the same rule-breaking updates with empty coordinate / update tensors: still ill-formed, still to be rejected
+    out += [
+        ("empty_update_marked_sets_differ", "set_at", f"[{H}] {C}, {P}, {P} {C} -> [{W}] {C}", [z(H, C), zi(0), z(0, C)], {}),
+        ("empty_update_coordinate_count", "add_at", f"[{H} {W}] {C}, {P}, {P} {C} -> [{H} {W}] {C}", [z(H, W, C), zi(0), z(0, C)], {}),
+        ("empty_update_text_is_not_an_expression", "subtract_at", f"[{H}] {C}, {P}, {P} {C} -> [{H}] {C} ((", [z(H, C), zi(0), z(0, C)], {}),
+        ("empty_update_rank_mismatch", "set_at", f"[{H}] {C} {D}, {P}, {P} {C} -> [{H}] {C} {D}", [z(H, C), zi(0), z(0, C)], {}),
+    ]
     out += [
         ("kw_sequence_entry_not_positive", "id", f"({A} {B})... -> {A}... {B}...", [full], {B: wrap(bad)}),
         ("kw_sequence_entry_not_positive", "sum", f"{A} [{B}...]", [np.zeros((2,) + tuple(good))], {B: wrap(bad)}),
